@@ -45,9 +45,9 @@ CLAIMS = {
   technique="static analysis: CFG must-follow with propagation to callers, must-precede under an assumed flag on go/ssa",
   ref="DESIGN.md §4 C12"),
  "C09": dict(
-  text="Structural necessary conditions of 'font loading is total', decided over the whole module: (R-REC) every recursive SCC has a re-derived termination argument and recursion in loops a shared work budget; (R-ALLOC) every make in the font-reading packages whose size has a 32/64-bit file value in its backward slice is guarded by a comparison on that value whose other edge returns a definite error (the capacity idiom is not a guard); (R-COUNT) every signed count parameter that sizes a make without a sign test receives, at every in-module call site, an argument that is provably non-negative (unsigned conversions, len/cap, guarded differences, clamped phis, fields and callee results with the same property). Known findings: composite-glyph fan-out, findTableBuffer. Absence of index panics in hand-written table code and loop termination are NOT decided.",
+  text="Structural necessary conditions of 'font loading is total', decided over the whole module: (R-REC) every recursive SCC has a re-derived termination argument and recursion in loops a shared work budget; (R-ALLOC) every make in the font-reading packages whose size has a 32/64-bit file value in its backward slice is guarded by a comparison on that value whose other edge returns a definite error (the capacity idiom is not a guard); (R-COUNT) every signed count parameter that sizes a make without a sign test receives, at every in-module call site, an argument that is provably non-negative (unsigned conversions, len/cap, guarded differences, clamped phis, fields and callee results with the same property); (R-GEN) in the five font-reading packages every index, slice and binary.*.UintN access to a []byte follows, by linear arithmetic over the length tests that dominate it, from those tests (upper bounds and non-negative lower bounds; 331 functions decided, 35 listed with a reason as not claimed because the argument is non-linear or spans sibling functions); (R-LOOP) data-driven loops have a counted exit; (R-DIV) divisors are provably non-zero. A guard whose operand is computed by a wrapping 32-bit operation does not count unless the allocation is sized by the wrapped value. Known findings: composite-glyph fan-out, findTableBuffer. Index panics on parsed (non-byte) structures and general loop termination are NOT decided.",
   note="64-bit int assumed for unsigned-to-int conversions; 16-bit sizes are bounded by type; stdlib decoders (zlib, png, ...) trusted",
-  technique="static analysis: call-graph SCC inventory, backward value slices and CFG edge-dominance on go/ssa, interprocedural sign analysis of count arguments",
+  technique="static analysis: call-graph SCC inventory, backward value slices and CFG edge-dominance on go/ssa, interprocedural sign analysis, linear length-fact prover (P-LIN) over dominating comparisons",
   ref="DESIGN.md §4 C09"),
  "C13": dict(
   text="Structural necessary conditions of 'reusable objects never leak state', decided for the caches of the reusable objects: (R-KEY/fields) every leaf of the shape-plan cache key that shapePlan.init fills from an input not covered by the map key is read by shapePlan.equal (data/control dependence of each stored value on each parameter, through callees); (R-KEY/projection) the key of the shaper's font cache is not a strict projection of an argument that the constructor of the cached value captures; (R-INV) every function outside the cached computation that may write a field read by Face.glyphExtentsRaw resets the extents cache on all paths, up to the exported API. Reset completeness of scratch state (R-STATE) is reported separately in the evidence when built. Equality of results with a fresh object in general is not decided.",
@@ -64,6 +64,11 @@ CLAIMS = {
   note="SSA expression-tree match of the narrowing chain; anchored on the function names of fontscan/match.go",
   technique="static analysis: dataflow chain (SSA def-use) and must-precede on go/ssa",
   ref="DESIGN.md §4 C15"),
+ "C16": dict(
+  text="The crash/corruption clause of the font-index property, decided for every reader of the cache format: (R-GEN) in each deserialize* function of fontscan every index, slice and binary.*.UintN access to the input bytes follows, by linear arithmetic, from the length tests that dominate it (failing edges of comparisons, loop invariants, lengths of made slices, `read <= len(arg)` post-conditions of nested readers, constant length preconditions of helpers checked at every call site), so a truncated or corrupted cache yields an error and not a panic; (R-ERR) the error of every deserialize* call is returned or tested, the single deliberate discard feeding only a rescan. Round-trip equality of writer and reader, and 'incremental refresh equals a from-scratch scan' over file-system histories, are NOT decided (behaviour over an external mutable world).",
+  note="integer overflow of offset arithmetic is not modelled (64-bit int); compress/gzip and bytes.Buffer trusted; readers are recognised by name (deserialize*), with an instance floor",
+  technique="static analysis: linear length-fact prover (P-LIN) over dominating comparisons on go/ssa + error-use check at call sites",
+  ref="DESIGN.md §4 C16"),
  "C17": dict(
   text="Static effect argument for 'a parsed font can be shared': no function that can run after package initialisation writes memory derived from a package-level variable (R-GLOBAL, only exemption: a direct store inside a literal passed to sync.Once.Do), and no function reachable from the exported API outside constructors writes memory derived from any *font.Font (R-FONT; subsumes caching a per-goroutine object on the font). All mutation kinds are covered (stores, map updates, copy/append destinations, delete/clear, sort.*, binary Put*, io.Read*). Absence of such writes implies absence of data races on that memory under every schedule; equality of concurrent and sequential results beyond that is not decided.",
   note="origin tracking is context-insensitive and field-based; references stored as elements of non-derived containers are re-discovered by type only; stdlib/x-text/x-image trusted; no unsafe/reflect/cgo (checked)",
